@@ -182,17 +182,20 @@ func (P *Program) runOnce(entry *ssa.Function, initPkgs []*ssa.Package, ex *Expl
 					k, m = "deadlock", SC.describe()
 				}
 			}
-			if k == "engine" && os.Getenv("SYMGO_DEBUG") != "" {
-				fmt.Fprintf(os.Stderr, "ENGINE PANIC: %v\n%s\n", p, debug.Stack())
+			if (k == "engine" || k == "unsupported") && os.Getenv("SYMGO_DEBUG") != "" {
+				fmt.Fprintf(os.Stderr, "ENGINE PANIC (%s): %v\n%s\n", k, p, ex.panicTrace)
 			}
+			_ = debug.Stack
 			outcome, detail = k, m
 		}
 	}()
+	t0 := time.Now()
 	for _, p := range initPkgs {
 		if f := p.Func("init"); f != nil {
 			call(i, nil, token.NoPos, f, nil)
 		}
 	}
+	ex.InitTime += time.Since(t0)
 	call(i, nil, token.NoPos, entry, nil)
 	if len(SC.ThreadPanics) > 0 {
 		k, m := classifyPanic(SC.ThreadPanics[0].p)
